@@ -55,7 +55,10 @@ def k_check(prop, outcome, items, quick_timeout=240, thorough_timeout=1200, sess
         solver_s += float(stats.get("runtime_solver_s", 0) or 0) + float(stats.get("runtime_decision_procedure_s", 0) or 0)
         symex_s += float(stats.get("runtime_symex_s", 0) or 0)
         vccs += int(stats.get("vccs_generated", 0) or 0)
-        unsat_covers = [d for d, s in res["covers"].items() if s != "Satisfied" and d.startswith("req:")]
+        # "req:" witnesses must be satisfied; "reqr:" witnesses may also be unreachable code (an outcome the specification of this arm
+        # excludes, e.g. the error outcome of a comparison) but must not be reachable-and-unsatisfiable
+        unsat_covers = [d for d, s in res["covers"].items() if (s != "Satisfied" and d.startswith("req:")) or
+                        (d.startswith("reqr:") and s not in ("Satisfied", "Unreachable"))]
         if not any(s == "Satisfied" for s in res["covers"].values()):
             unsat_covers.append("(no satisfied reachability witness at all)")
         entry = {
